@@ -33,6 +33,16 @@ def _tolist(data):
     return data
 
 
+def _div(x, y):
+    """numpy's floating division: a zero divisor gives +-inf (nan for 0/0) instead of raising."""
+    try:
+        return x / y
+    except ZeroDivisionError:
+        if x == 0 or x != x:
+            return float("nan")
+        return float("inf") if (x > 0) == (str(float(y))[0] != "-") else float("-inf")
+
+
 class NA:
     _absint_elementwise = True
 
@@ -151,7 +161,10 @@ class NA:
         return self._bin(o, lambda x, y: x * y, True)
 
     def __truediv__(self, o):
-        return self._bin(o, lambda x, y: x / y)
+        return self._bin(o, _div)
+
+    def __rtruediv__(self, o):
+        return self._bin(o, _div, True)
 
     def __neg__(self):
         return self._map(lambda x: -x)
@@ -223,6 +236,21 @@ class NA:
             return 0
         return self._reduce(sum, axis)
 
+    def mean(self, axis=None):
+        if axis is None:
+            flat = self.data if self.ndim == 1 else [x for r in self.data for x in r]
+            return sum(flat) / len(flat) if flat else float("nan")
+        n = self.shape[axis if self.ndim == 2 else 0]
+        return self._reduce(lambda xs: sum(xs) / len(xs), axis) if n else _empty((0,))
+
+    def flatten(self):
+        if self.ndim == 1:
+            return NA(list(self.data)) if self.data else _empty((0,))
+        flat = [x for r in self.data for x in r]
+        return NA(flat) if flat else _empty((0,))
+
+    ravel = flatten
+
     def all(self, axis=None):
         return self._reduce(all, axis) if self.size else True
 
@@ -267,11 +295,24 @@ class NA:
                 return self[key[0]]
             if len(key) == 2 and self.ndim == 2:
                 i, j = key
-                rows = self.data[i] if isinstance(i, slice) else [self.data[i]]
+                rows = self.data[i] if isinstance(i, slice) else ([self.data[i]] if isinstance(i, int) else [])
+                if isinstance(i, (list, NA)):
+                    # rows picked by an array of integer positions: a[idx, :]
+                    ridx = list(i.data) if isinstance(i, NA) else list(i)
+                    if not all(isinstance(c, int) and not isinstance(c, bool) for c in ridx) or not (isinstance(j, slice) and j == slice(None)):
+                        raise Unsupported("row selection by something other than integer positions with all columns")
+                    picked = [list(self.data[c]) for c in ridx]
+                    return NA(picked) if picked else _empty((0, self.shape[1]))
                 if isinstance(j, (list, NA)):
                     cols = list(j.data) if isinstance(j, NA) else list(j)
+                    if cols and all(isinstance(c, bool) for c in cols):
+                        if len(cols) != self.shape[1]:
+                            raise IndexError(f"boolean index did not match indexed array along dimension 1; dimension is {self.shape[1]} but corresponding boolean dimension is {len(cols)}")
+                        cols = [k for k, c in enumerate(cols) if c]
+                        if not cols:
+                            return _empty((len(rows), 0)) if not isinstance(i, int) else _empty((0,))
                     if not all(isinstance(c, int) and not isinstance(c, bool) for c in cols):
-                        raise Unsupported("column selection by something other than integer positions")
+                        raise Unsupported("column selection by something other than integer positions or a boolean mask")
                     out = [[r[c] for c in cols] for r in rows]
                 else:
                     out = [r[j] for r in rows]
@@ -391,7 +432,44 @@ def np_vstack(parts):
     return NA(rows)
 
 
+def np_hstack(parts):
+    flat = []
+    for part in parts:
+        part = part if isinstance(part, NA) else NA(part)
+        if part.ndim != 1:
+            raise Unsupported("hstack of arrays that are not one-dimensional")
+        flat.extend(part.data)
+    return NA(flat) if flat else _empty((0,))
+
+
+def np_allclose(a, b, rtol=1e-05, atol=1e-08):
+    a = a if isinstance(a, NA) else NA(a)
+    diff = a._bin(b, lambda x, y: abs(x - y) <= atol + rtol * abs(y))
+    return bool(diff.all())
+
+
+def np_logical_not(a):
+    return ~a if isinstance(a, NA) else (not a)
+
+
+def np_any(a, axis=None):
+    return a.any(axis) if isinstance(a, NA) else bool(a)
+
+
+def np_all(a, axis=None):
+    return a.all(axis) if isinstance(a, NA) else bool(a)
+
+
+def np_sqrt(x):
+    import math
+
+    if isinstance(x, NA):
+        return x._map(math.sqrt)
+    return NScalar(math.sqrt(x))
+
+
 NUMPY = {
+    "numpy.hstack": np_hstack, "numpy.allclose": np_allclose, "numpy.logical_not": np_logical_not, "numpy.any": np_any, "numpy.all": np_all, "numpy.sqrt": np_sqrt,
     "numpy.ceil": np_ceil, "numpy.floor": np_floor, "numpy.vstack": np_vstack, "numpy.concatenate": np_vstack,
     "numpy.array": np_array, "numpy.asarray": np_array, "numpy.atleast_2d": np_atleast_2d, "numpy.abs": np_abs, "numpy.absolute": np_abs,
     "numpy.minimum": np_minimum, "numpy.maximum": np_maximum, "numpy.repeat": np_repeat, "numpy.char.add": np_char_add,
